@@ -8,6 +8,7 @@
   exactly when the closing delimiter is on its own line.
 -/
 import Edn.Proofs.TextBlock
+import Edn.Proofs.TextBlockSound
 
 namespace Edn.Properties.C20
 open Edn.Model Edn.Spec Edn.Proofs
@@ -49,5 +50,163 @@ theorem block_equals_ordinary_literal (cfg : Cfg) (h h' : Hdr) (text sp : Bytes)
 example : blockText [⟨[], [0x61]⟩, ⟨[0x20, 0x20], [0x62]⟩] (.ownLine []) = [0x61, 0x0A, 0x20, 0x20, 0x62, 0x0A] := by decide +kernel
 example : (⟨[0x20, 0x20], [0x62]⟩ : SrcLine).WF :=
   ⟨by decide, by decide, .plain 0x62 [] (by decide) (by decide) (by decide) .nil⟩
+
+/-! ## The converse: the block reader accepts exactly the well-formed blocks
+
+  Well-formedness of the closing delimiter is `Closer.WFx` below: `Closer.WF` with one more case
+  allowed (the last body may end in an escaped triple quote directly before the delimiter).
+  With `Closer.WF` itself the converse is false, see `spec_closer_wf_is_narrower`. -/
+
+/-- `Closer.WFx` is `Closer.WF` or "inline delimiter directly after a body ending in `\"""`" -/
+theorem exact_closer_wf (lines : List SrcLine) (c : Closer) :
+    c.WFx lines ↔ c.WF lines ∨
+      (c = .inline ∧ ∃ l, lines.getLast? = some l ∧ [0x5C, 0x22, 0x22, 0x22] <:+ l.body) :=
+  Closer.WFx_iff lines c
+
+/-- `block_reads_as_documented` holds for the exact well-formedness too -/
+theorem exact_block_reads_as_documented (lines : List SrcLine) (c : Closer) (rest : Bytes)
+    (hl : ∀ l ∈ lines, l.WF) (hc : c.WFx lines) :
+    readTextBlockBody (encodeBlock lines c ++ rest) = .ok (blockText lines c, rest) :=
+  readTextBlockBody_complete lines c rest hl hc
+
+/-- with the experimental flag, `"""⏎ body rest` is read as a string value with text `text`
+    (spanning the literal, no escape processing pending), leaving exactly `rest`, if and only if
+    `body` is a well-formed block and `text` is what the documented algorithm gives for it:
+    the reader accepts the grammar of text blocks and nothing else -/
+theorem block_reader_is_the_grammar (ctx : Ctx) (hexp : ctx.cfg.exp = true) (body rest text : Bytes) (cl : List Call) :
+    readString ctx { rest := 0x22 :: 0x22 :: 0x22 :: 0x0A :: (body ++ rest), calls := cl } =
+        .ok (.str (mkHdr (4 + body.length + rest.length) rest.length) text false) { rest := rest, calls := cl } ↔
+      ∃ (lines : List SrcLine) (c : Closer), (∀ l ∈ lines, l.WF) ∧ c.WFx lines ∧
+        body = encodeBlock lines c ∧ text = blockText lines c :=
+  readString_textblock_iff ctx hexp body rest text cl
+
+/-- the same, comparing the value by content (`strip`) -/
+theorem block_reader_is_the_grammar_content (ctx : Ctx) (hexp : ctx.cfg.exp = true) (body rest text : Bytes) (cl : List Call) :
+    (∃ v, readString ctx { rest := 0x22 :: 0x22 :: 0x22 :: 0x0A :: (body ++ rest), calls := cl } =
+        .ok v { rest := rest, calls := cl } ∧ strip v = .str hdr0 text false) ↔
+      ∃ (lines : List SrcLine) (c : Closer), (∀ l ∈ lines, l.WF) ∧ c.WFx lines ∧
+        body = encodeBlock lines c ∧ text = blockText lines c :=
+  readString_textblock_iff_strip ctx hexp body rest text cl
+
+/-- whatever value the reader returns for an input starting with `"""⏎` is the string denoted by
+    a well-formed block at the start of the input; the value spans that block and the reader
+    stands right behind it -/
+theorem accepted_block_is_well_formed (ctx : Ctx) (hexp : ctx.cfg.exp = true) (s : Bytes) (cl : List Call)
+    (v : Val) (st' : St)
+    (h : readString ctx { rest := 0x22 :: 0x22 :: 0x22 :: 0x0A :: s, calls := cl } = .ok v st') :
+    ∃ (lines : List SrcLine) (c : Closer) (rest : Bytes), (∀ l ∈ lines, l.WF) ∧ c.WFx lines ∧
+      s = encodeBlock lines c ++ rest ∧
+      v = .str (mkHdr (s.length + 4) rest.length) (blockText lines c) false ∧
+      st' = { rest := rest, calls := cl } :=
+  readString_textblock_sound ctx hexp s cl v st' h
+
+/-- the body reader: a result is returned exactly for a well-formed block followed by the
+    returned rest -/
+theorem body_reader_is_the_grammar (body text rest : Bytes) :
+    readTextBlockBody body = .ok (text, rest) ↔
+      ∃ (lines : List SrcLine) (c : Closer), (∀ l ∈ lines, l.WF) ∧ c.WFx lines ∧
+        body = encodeBlock lines c ++ rest ∧ text = blockText lines c :=
+  readTextBlockBody_iff body text rest
+
+/-- the block at the start of an input is unique (it ends at the first triple quote that is not
+    escaped): lines, closing delimiter and rest are determined by the bytes -/
+theorem block_is_unique (lines lines' : List SrcLine) (c c' : Closer) (rest rest' : Bytes)
+    (hl : ∀ l ∈ lines, l.WF) (hc : c.WFx lines) (hl' : ∀ l ∈ lines', l.WF) (hc' : c'.WFx lines')
+    (h : encodeBlock lines c ++ rest = encodeBlock lines' c' ++ rest') :
+    lines = lines' ∧ c = c' ∧ rest = rest' :=
+  block_decomposition_unique lines lines' c c' rest rest' hl hc hl' hc' h
+
+/-- if no prefix of `body` is a well-formed block, the reader rejects `"""⏎ body` with
+    `invalidString`, and never reads it as something else.  Either `body` consists of complete
+    well-formed lines only (the closing delimiter is missing): the error range is the literal from
+    its opening quote to the end of the input, and the reader stands at the end of the input.  Or
+    `body` ends inside a line `ls` (no line feed, no unescaped triple quote after the last line
+    feed): the error carries no range of its own and the reader stands at the start of that line. -/
+theorem ill_formed_block_is_rejected (ctx : Ctx) (hexp : ctx.cfg.exp = true) (body : Bytes) (cl : List Call)
+    (h : ¬ ∃ (lines : List SrcLine) (c : Closer) (rest : Bytes), (∀ l ∈ lines, l.WF) ∧ c.WFx lines ∧
+      body = encodeBlock lines c ++ rest) :
+    (∃ e, readTextBlockBody body = .error e) ∧
+    ((Unclosed body ∧
+      readString ctx { rest := 0x22 :: 0x22 :: 0x22 :: 0x0A :: body, calls := cl } =
+        .err (mkErr .invalidString (some (body.length + 4)) (some 0)) { rest := [], calls := cl }) ∨
+     (∃ ls, CutLine body ls ∧
+      readString ctx { rest := 0x22 :: 0x22 :: 0x22 :: 0x0A :: body, calls := cl } =
+        .err (mkErr .invalidString) { rest := ls, calls := cl })) :=
+  textBlock_rejected ctx hexp body cl h
+
+/-- which error says what: "missing closing delimiter" exactly for complete lines only ... -/
+theorem missing_closer_iff (body : Bytes) :
+    readTextBlockBody body = .error .missingCloser ↔ Unclosed body :=
+  readTextBlockBody_missingCloser_iff body
+
+/-- ... and "end of input inside a line" exactly for complete lines followed by a cut line -/
+theorem eof_in_line_iff (body ls : Bytes) :
+    readTextBlockBody body = .error (.eofInLine ls) ↔ CutLine body ls :=
+  readTextBlockBody_eofInLine_iff body ls
+
+/-- the specification's `Closer.WF` is narrower than the reader: `\""""""` is read (as `"""`) but
+    is not the encoding of a block well-formed in that sense -/
+theorem spec_closer_wf_is_narrower :
+    readTextBlockBody [0x5C, 0x22, 0x22, 0x22, 0x22, 0x22, 0x22] = .ok ([0x22, 0x22, 0x22], []) ∧
+    ¬ ∃ (lines : List SrcLine) (c : Closer) (rest : Bytes), (∀ l ∈ lines, l.WF) ∧ c.WF lines ∧
+      [0x5C, 0x22, 0x22, 0x22, 0x22, 0x22, 0x22] = encodeBlock lines c ++ rest :=
+  closer_WF_too_narrow
+
+/-! ### examples -/
+
+/-- `"""⏎abc` at the end of the input is rejected (this was a defect once): end of input inside a
+    line, the reader stands at the `a` -/
+example (ctx : Ctx) (hexp : ctx.cfg.exp = true) (cl : List Call) :
+    readString ctx { rest := [0x22, 0x22, 0x22, 0x0A, 0x61, 0x62, 0x63], calls := cl } =
+      .err (mkErr .invalidString) { rest := [0x61, 0x62, 0x63], calls := cl } := by
+  rw [readString_textblock_eq ctx hexp, show readTextBlockBody [0x61, 0x62, 0x63] = .error (.eofInLine [0x61, 0x62, 0x63]) by rfl]
+
+/-- the hypothesis of `ill_formed_block_is_rejected` holds for `abc` (non-vacuity) ... -/
+example : ¬ ∃ (lines : List SrcLine) (c : Closer) (rest : Bytes), (∀ l ∈ lines, l.WF) ∧ c.WFx lines ∧
+    [0x61, 0x62, 0x63] = encodeBlock lines c ++ rest :=
+  not_block_of_error _ (.eofInLine [0x61, 0x62, 0x63]) rfl
+
+/-- ... and `abc` is a cut line in the sense of the grammar -/
+example : CutLine [0x61, 0x62, 0x63] [0x61, 0x62, 0x63] :=
+  ⟨[], by simp, rfl, by simp, by decide +kernel⟩
+
+/-- `"""⏎abc⏎` at the end of the input: the delimiter is missing, range = the whole input -/
+example (ctx : Ctx) (hexp : ctx.cfg.exp = true) (cl : List Call) :
+    readString ctx { rest := [0x22, 0x22, 0x22, 0x0A, 0x61, 0x62, 0x63, 0x0A], calls := cl } =
+      .err (mkErr .invalidString (some 8) (some 0)) { rest := [], calls := cl } := by
+  rw [readString_textblock_eq ctx hexp, show readTextBlockBody [0x61, 0x62, 0x63, 0x0A] = .error .missingCloser by rfl]
+  rfl
+
+example : Unclosed [0x61, 0x62, 0x63, 0x0A] :=
+  ⟨[⟨[], [0x61, 0x62, 0x63]⟩], by simp; decide +kernel, rfl⟩
+
+/-- a closing delimiter preceded by `\` is an escaped triple quote, not a delimiter:
+    `"""⏎ab\"""` at the end of the input is rejected ... -/
+example (ctx : Ctx) (hexp : ctx.cfg.exp = true) (cl : List Call) :
+    readString ctx { rest := [0x22, 0x22, 0x22, 0x0A, 0x61, 0x62, 0x5C, 0x22, 0x22, 0x22], calls := cl } =
+      .err (mkErr .invalidString) { rest := [0x61, 0x62, 0x5C, 0x22, 0x22, 0x22], calls := cl } := by
+  rw [readString_textblock_eq ctx hexp,
+    show readTextBlockBody [0x61, 0x62, 0x5C, 0x22, 0x22, 0x22] = .error (.eofInLine [0x61, 0x62, 0x5C, 0x22, 0x22, 0x22]) by rfl]
+
+/-- ... while `"""⏎ab\"""⏎  """ x` is the block with the line `ab\"""` and the delimiter on its own
+    line: the text is `ab"""⏎` and ` x` is left -/
+example (ctx : Ctx) (hexp : ctx.cfg.exp = true) (cl : List Call) :
+    readString ctx { rest := 0x22 :: 0x22 :: 0x22 :: 0x0A ::
+        ([0x61, 0x62, 0x5C, 0x22, 0x22, 0x22, 0x0A, 0x20, 0x20, 0x22, 0x22, 0x22] ++ [0x20, 0x78]), calls := cl } =
+      .ok (.str (mkHdr (4 + 12 + 2) 2) [0x61, 0x62, 0x22, 0x22, 0x22, 0x0A] false) { rest := [0x20, 0x78], calls := cl } :=
+  (block_reader_is_the_grammar ctx hexp _ _ _ cl).mpr
+    ⟨[⟨[], [0x61, 0x62, 0x5C, 0x22, 0x22, 0x22]⟩], .ownLine [0x20, 0x20],
+      by simp; decide +kernel, (by show ∀ c ∈ ([0x20, 0x20] : Bytes), isBlank c = true; decide), rfl,
+      by decide +kernel⟩
+
+/-- the case only `Closer.WFx` covers: `"""⏎ab\""""""` (escaped triple quote, then the delimiter) is the
+    text `ab"""` -/
+example (ctx : Ctx) (hexp : ctx.cfg.exp = true) (cl : List Call) :
+    readString ctx { rest := 0x22 :: 0x22 :: 0x22 :: 0x0A ::
+        ([0x61, 0x62, 0x5C, 0x22, 0x22, 0x22, 0x22, 0x22, 0x22] ++ []), calls := cl } =
+      .ok (.str (mkHdr (4 + 9 + 0) 0) [0x61, 0x62, 0x22, 0x22, 0x22] false) { rest := [], calls := cl } :=
+  (block_reader_is_the_grammar ctx hexp _ _ _ cl).mpr
+    ⟨[⟨[], [0x61, 0x62, 0x5C, 0x22, 0x22, 0x22]⟩], .inline,
+      by simp; decide +kernel, ⟨_, rfl, by simp, by decide⟩, rfl, by decide +kernel⟩
 
 end Edn.Properties.C20
